@@ -120,7 +120,7 @@ def check_case(item):
     pats = []
     for i, ps in enumerate(clauses):
         for p in ps:
-            pats.append((i, U.m_core(p), (prios[i] if (greedy and prios) else 0)))
+            pats.append((i, U.m_core(p), ((prios[i] or 0) if (greedy and prios) else 0)))
     w = None
     for (i, ri, pi), (j, rj, pj) in itertools.permutations(pats, 2):
         if i == j:
